@@ -725,6 +725,7 @@ type c08State struct {
 	defs      []c08Def // defined names in creation order (defined-name stream)
 	mainSheet string   // sheet holding the main formula ("" = Sheet1)
 	lastRaw string
+	wide    bool // a formula cell lies beyond column J or row 10 (formula-precedent stream)
 	impl  map[string]string // raw (hook) image of every cell as the evaluator sees it
 	taint map[string]string
 	f     *xl.File
@@ -960,6 +961,9 @@ func (st *c08State) formula(r *Run, opname, key string, tree *c08Node, spaced bo
 		if sig == "unexplained" && c08HasKind(tree, "D") {
 			sig = "defname:resolution"
 		}
+		if sig == "unexplained" && st.wide && c08HasKind(tree, "R") {
+			sig = "ref:formula-precedent"
+		}
 		what := fmt.Sprintf("=%s: CalcCellValue gives %q err=%q, Excel semantics give %s", text, res, errs, c08Show(spec))
 		if c08HasKind(tree, "D") {
 			what = fmt.Sprintf("on %s, names %s: %s", st.main(), st.showDefs(), what)
@@ -1040,6 +1044,11 @@ func (st *c08State) setCell(r *Run, key, kind, payload string) {
 }
 
 func (st *c08State) setFormulaCell(r *Run, key string, tree *c08Node) {
+	if _, cn := c08SplitKey(key); true {
+		if c, w, err := xl.CellNameToCoordinates(cn); err == nil && (c > 10 || w > 10) {
+			st.wide = true
+		}
+	}
 	v := st.formula(r, "", key, tree, false)
 	st.impl[key] = st.lastRaw
 	if v.K == "skip" {
@@ -1468,6 +1477,8 @@ func runC08(r *Run, rng *Rng, replay string) {
 	c08DnStream(r, rng)
 	// 6. aggregates over generated ranges (own workbooks)
 	c08AggStream(r, rng)
+	// 7. formula cells as precedents over wide coordinates (own workbooks)
+	c08FpStream(r, rng)
 	r.Samples = r.opsSample(10)
 }
 
